@@ -25,7 +25,8 @@ from props import common
 
 ID = "C05"
 LEVEL = "exploration"
-QUICK_RUNS = 60000
+QUICK_RUNS = 35000
+SUBRUNS = 2          # two scenarios per run, one after the other in the same process (see runner.execute)
 QUICK_BUDGET_S = 50.0
 THOROUGH_RUNS = 10 ** 9
 BATCH = 100
